@@ -56,6 +56,15 @@ func crashOptions(r *rand.Rand) model.OptSet {
 func build(c *wk.Ctx, i int, r *rand.Rand) (*workload, error) {
 	w := &workload{os: crashOptions(r), stor: vstor.New(true), h: &hist.History{}}
 	w.stor.SetKeepLogs(false)
+	if i%5 == 1 {
+		// long-key workloads: with the tiny buffers of the other workloads every single write would be a flush and
+		// every entry a table of its own (tens of thousands of storage operations for 150 writes); a few pairs per
+		// table keep the log at a size whose crash points can be enumerated, and the manifest records still carry
+		// two keys of several KiB per table
+		w.os.O.WriteBuffer = []int{16 << 10, 32 << 10}[r.Intn(2)]
+		w.os.O.CompactionTableSize = 32 << 10
+		w.os.Desc["WriteBuffer"], w.os.Desc["CompactionTableSize"] = w.os.O.WriteBuffer, w.os.O.CompactionTableSize
+	}
 	db, err := leveldb.Open(w.stor, w.os.Clone())
 	if err != nil {
 		return nil, fmt.Errorf("open: %v", err)
@@ -72,7 +81,7 @@ func build(c *wk.Ctx, i int, r *rand.Rand) (*workload, error) {
 	nops := 200 + r.Intn(c.Pick(700, 1300))
 	bigKeys := i%5 == 1
 	if bigKeys {
-		nops = 60 + r.Intn(120)
+		nops = 100 + r.Intn(300)
 	}
 	syncPct := []int{5, 30, 100}[r.Intn(3)]
 	shared := &hist.History{}
